@@ -240,7 +240,7 @@ func cloneRow(r sqlittle.Row) sqlittle.Row {
 }
 
 func runC18(r *ev.Run) {
-	r.Rule = "(S) every value of a 95-value grid (int64/float64 extremes, numeric-looking and malformed text, both time formats, empty and 5000-byte blobs) x every supported destination type at every column position 0..2 incl. positions past the row width, unsupported destinations, nil destinations, ScanString/ScanStringString/ScanStrings, argument counts 0..width+2: no panic, result and error-ness equal a reference model of the documented conversions, row unchanged; (H) every history of depth <=4 (5 thorough) over {scan blob/text row into []byte, into string, mutate every scanned slice, re-read on the same handle, re-read on a fresh handle, close, overwrite the file, verify scanned values} on a real file with inline and overflowed blobs: re-reads always equal the baseline and scanned values stay what they were. non-trivial = conversions between different classes / histories containing a mutation or close"
+	r.Rule = "(S) every value of a 95-value grid (int64/float64 extremes, numeric-looking and malformed text, both time formats, empty and 5000-byte blobs) x every supported destination type at every column position 0..2 incl. positions past the row width, unsupported destinations, nil destinations, ScanString/ScanStringString/ScanStrings, argument counts 0..width+2: no panic, result and error-ness equal a reference model of the documented conversions, row unchanged; (S') every cell of every row that the read pipeline delivers from databases written by SQLite (all C01 scripts plus 220 tables with a column added by ALTER TABLE: 11 declared types x 20 DEFAULT literals, read from rows stored before) x every destination type: the cell is one of the five documented Go types, no panic, documented conversion; (H) every history of depth <=4 (5 thorough) over {scan blob/text row into []byte, into string, mutate every scanned slice, re-read on the same handle, re-read on a fresh handle, close, overwrite the file, verify scanned values} on a real file with inline and overflowed blobs: re-reads always equal the baseline and scanned values stay what they were. non-trivial = conversions between different classes / histories containing a mutation or close"
 	grid := c18Grid()
 	dests := c18Dests()
 	r.Set("grid_values", len(grid))
@@ -335,6 +335,7 @@ func runC18(r *ev.Run) {
 		}
 		r.Eval(1)
 	}
+	c18Stored(r)
 	c18Histories(r)
 }
 
